@@ -4,6 +4,7 @@ import (
 	"fmt"
 	"go/token"
 	"go/types"
+	"sort"
 	"strings"
 
 	"golang.org/x/tools/go/ssa"
@@ -21,6 +22,7 @@ func init() {
 		ruleNoent(c, "C03.T6")
 		ruleColdRead(c, "C03.T7")
 		ruleR3(c, "C03.T8")
+		ruleStale(c, "C03.T9")
 	}
 }
 
@@ -411,6 +413,75 @@ func ruleT3(c *Ctx, id string) {
 	// --- RENAME uses the relocked inodes only under validateRename == true
 	ren := c.fn(id, "nfs.(*Nfs).NFSPROC3_RENAME")
 	if ren != nil {
+		// every round of the retry loop resolves the names again: from a relock (a bulk acquisition of numbers
+		// that came from name lookups) no path leads back to it without a fresh LookupName of each name - numbers
+		// kept from an earlier round can be stale for ever, and then every round fails the same way
+		nRelock := map[string]int{}
+		for _, lc := range P.CallsIn(ren, funcIs(V.lockInodes)) {
+			elems := sliceElems(argN(lc, 1), twoInums)
+			names := map[string]bool{}
+			for _, e := range elems {
+				for w := range bwdSources(stripConv(e)) {
+					if ex, ok := w.(*ssa.Extract); ok && ex.Index == 0 {
+						if cl, ok := ex.Tuple.(*ssa.Call); ok && cl.Call.StaticCallee() == lookup {
+							if _, path := paramFieldPath(cl.Call.Args[2]); path != "" {
+								names[path] = true
+							}
+						}
+					}
+				}
+			}
+			if len(names) == 0 || !reachableFrom(lc, lc) {
+				continue // numbers of handles, or not in a loop
+			}
+			var ns []string
+			for nm := range names {
+				ns = append(ns, nm)
+			}
+			sort.Strings(ns)
+			for _, nm := range ns {
+				nm := nm
+				isLk := func(in ssa.Instruction) bool {
+					cl, ok := in.(*ssa.Call)
+					if !ok || cl.Call.StaticCallee() != lookup {
+						return false
+					}
+					_, path := paramFieldPath(cl.Call.Args[2])
+					return path == nm
+				}
+				// can the relock be reached again from itself avoiding the blocks that look the name up?
+				seen := map[*ssa.BasicBlock]bool{}
+				var free bool
+				var walk func(b *ssa.BasicBlock)
+				walk = func(b *ssa.BasicBlock) {
+					if seen[b] || free {
+						return
+					}
+					seen[b] = true
+					for _, in := range b.Instrs {
+						if isLk(in) {
+							return
+						}
+					}
+					if b == lc.Block() {
+						free = true
+						return
+					}
+					for _, sb := range b.Succs {
+						walk(sb)
+					}
+				}
+				for _, sb := range lc.Block().Succs {
+					walk(sb)
+				}
+				nRelock[nm]++
+				rk := fmt.Sprintf("NFSPROC3_RENAME|retry resolves %s again", nm)
+				if nRelock[nm] > 1 {
+					rk = fmt.Sprintf("%s#%d", rk, nRelock[nm])
+				}
+				R.Check(!free, id, rk, P.Pos(lc.Pos()), "every way round the retry loop back to the relock passes LookupName of "+nm, "no lookup-free cycle", "a retry reuses the inode number an earlier round found for "+nm+": once another client removes or rebinds that name the relock or the revalidation fails in every round, and the request spins for ever")
+			}
+		}
 		ruleRoles(c, id, vr, ren, lookup, twoInums)
 		vcalls := P.CallsIn(ren, funcIs(vr))
 		R.Check(len(vcalls) == 1, id, "NFSPROC3_RENAME|calls validateRename", P.Pos(ren.Pos()), "the relock branch of RENAME calls validateRename", "one call", "relock without revalidation")
@@ -655,57 +726,17 @@ func ruleNoent(c *Ctx, id string) {
 	}
 	n := 0
 	perFn := map[string]int{}
-	for _, fn := range P.RepoFuncs("nfs") {
-		if strings.HasSuffix(P.Pos(fn.Pos()), "_test.go") || strings.Contains(P.Pos(fn.Pos()), "nfs_clnt.go") {
-			continue
+	forStatusConst(c, noent, func(fn *ssa.Function, at *ssa.BasicBlock, pos token.Pos) {
+		n++
+		k := FuncName(ownerOf(fn)) + "|NOENT"
+		perFn[k]++
+		key := k
+		if perFn[k] > 1 {
+			key = fmt.Sprintf("%s#%d", k, perFn[k])
 		}
-		for _, b := range fn.Blocks {
-			for _, in := range b.Instrs {
-				check := func(at *ssa.BasicBlock, pos token.Pos) {
-					n++
-					k := FuncName(ownerOf(fn)) + "|NOENT"
-					perFn[k]++
-					key := k
-					if perFn[k] > 1 {
-						key = fmt.Sprintf("%s#%d", k, perFn[k])
-					}
-					R.Analysed[FuncName(fn)] = true
-					R.Check(found(fn, at), id, key, P.Pos(pos), "NFS3ERR_NOENT is chosen on the edge where dir.LookupName returned NULLINUM", "dominated by lookup == NULLINUM", "'no such name' is answered on a path where the name was found (e.g. the object vanished while the directory was unlocked for a relock): another client's rename over the name makes LOOKUP/REMOVE fail although the name exists in every order")
-				}
-				isNoent := func(v ssa.Value) bool {
-					k, isk := constInt(v)
-					nt, _ := types.Unalias(v.Type()).(*types.Named)
-					return isk && k == noent && nt != nil && nt.Obj().Name() == "Nfsstat3"
-				}
-				switch x := in.(type) {
-				case *ssa.Phi:
-					for i, e := range x.Edges {
-						if isNoent(e) {
-							check(b.Preds[i], x.Pos())
-						}
-					}
-				case *ssa.Store:
-					if isNoent(x.Val) {
-						check(b, x.Pos())
-					}
-				case *ssa.Return:
-					for i, r := range x.Results {
-						if isNoent(r) && statusEscapes(fn, i) {
-							check(b, x.Pos())
-						}
-					}
-				default:
-					if cc := callCommon(in); cc != nil {
-						for _, a := range cc.Args {
-							if isNoent(a) {
-								check(b, in.Pos())
-							}
-						}
-					}
-				}
-			}
-		}
-	}
+		R.Analysed[FuncName(fn)] = true
+		R.Check(found(fn, at), id, key, P.Pos(pos), "NFS3ERR_NOENT is chosen on the edge where dir.LookupName returned NULLINUM", "dominated by lookup == NULLINUM", "'no such name' is answered on a path where the name was found (e.g. the object vanished while the directory was unlocked for a relock): another client's rename over the name makes LOOKUP/REMOVE fail although the name exists in every order")
+	})
 	if n == 0 {
 		R.Fail(id, "nfs|NOENT sites", "?", "the server answers NFS3ERR_NOENT somewhere", "no use of the constant found")
 	}
@@ -872,4 +903,137 @@ func sliceElems(v ssa.Value, builder *ssa.Function) []ssa.Value {
 		}
 	}
 	return out
+}
+
+// forStatusConst calls f for every place in package nfs where the status
+// constant k flows into a status: a store, an argument, a phi input (reported
+// at the predecessor block), or a returned value that can become a reply's
+// status.
+func forStatusConst(c *Ctx, k int64, f func(fn *ssa.Function, at *ssa.BasicBlock, pos token.Pos)) {
+	P := c.P
+	is := func(v ssa.Value) bool {
+		kk, isk := constInt(v)
+		nt, _ := types.Unalias(v.Type()).(*types.Named)
+		return isk && kk == k && nt != nil && nt.Obj().Name() == "Nfsstat3"
+	}
+	for _, fn := range P.RepoFuncs("nfs") {
+		if strings.HasSuffix(P.Pos(fn.Pos()), "_test.go") || strings.Contains(P.Pos(fn.Pos()), "nfs_clnt.go") {
+			continue
+		}
+		for _, b := range fn.Blocks {
+			for _, in := range b.Instrs {
+				switch x := in.(type) {
+				case *ssa.Phi:
+					for i, e := range x.Edges {
+						if is(e) {
+							f(fn, b.Preds[i], x.Pos())
+						}
+					}
+				case *ssa.Store:
+					if is(x.Val) {
+						f(fn, b, x.Pos())
+					}
+				case *ssa.Return:
+					for i, r := range x.Results {
+						if is(r) && statusEscapes(fn, i) {
+							f(fn, b, x.Pos())
+						}
+					}
+				default:
+					if cc := callCommon(in); cc != nil {
+						for _, a := range cc.Args {
+							if is(a) {
+								f(fn, b, in.Pos())
+							}
+						}
+					}
+				}
+			}
+		}
+	}
+}
+
+// ruleStale: "stale file handle" is the answer to a client handle that no
+// longer names a live object - and to nothing else.  When the relock of
+// RENAME (or of the ordered lookup) finds that an inode whose number came from
+// a *name lookup* has vanished, the handle is as good as before: the request
+// must retry (the name is gone or rebound, which the next round reports as
+// such).  Every place where the constant flows into a status lies behind an
+// edge on which a handle failed to resolve: GetInodeFh returned nil, the bulk
+// acquisition of numbers that all come from decoded handles returned nil, or
+// a generation compared unequal.
+func ruleStale(c *Ctx, id string) {
+	V, P, R := c.V, c.P, c.R
+	R.Rule(id, "NFS3ERR_STALE is produced only where a client handle failed to resolve: every place where the constant flows into a status is reached only through 'GetInodeFh(...) == nil', 'lockInodes(<numbers of decoded handles>) == nil' or a generation mismatch", 10)
+	stale := constOfPkg(P, "nfstypes", "NFS3ERR_STALE")
+	twoInums := P.Func("nfs.twoInums")
+	fromHandleLock := func(v ssa.Value) bool {
+		okP, n := derivesOnlyFrom(v, funcIs(V.GetInodeFh), 0)
+		if okP && n > 0 {
+			return true
+		}
+		// lockInodes(op, numbers) with every number the Ino of a decoded handle
+		ps, other := producersOf(stripConv(v))
+		if other || len(ps) == 0 {
+			return false
+		}
+		for _, p := range ps {
+			if p.call.Call.StaticCallee() != V.lockInodes {
+				return false
+			}
+			elems := sliceElems(argN(p.call, 1), twoInums)
+			if elems == nil {
+				return false
+			}
+			for _, e := range elems {
+				mc, fl := fieldOfCallResult(e)
+				if mc == nil || fl != "Ino" || mc.Call.StaticCallee() == nil || mc.Call.StaticCallee().Name() != "MakeFh" {
+					return false
+				}
+			}
+		}
+		return true
+	}
+	n := 0
+	perFn := map[string]int{}
+	forStatusConst(c, stale, func(fn *ssa.Function, at *ssa.BasicBlock, pos token.Pos) {
+		n++
+		k := FuncName(ownerOf(fn)) + "|STALE"
+		perFn[k]++
+		key := k
+		if perFn[k] > 1 {
+			key = fmt.Sprintf("%s#%d", k, perFn[k])
+		}
+		R.Analysed[FuncName(fn)] = true
+		nilEdge := condEdge(fn, func(cd Cond) (bool, bool) {
+			if cd.X == nil || cd.Y == nil || (cd.Op != token.EQL && cd.Op != token.NEQ) {
+				return false, false
+			}
+			for _, pr := range [][2]ssa.Value{{cd.X, cd.Y}, {cd.Y, cd.X}} {
+				if isNilConst(pr[1]) && fromHandleLock(pr[0]) {
+					return true, cd.Op == token.EQL
+				}
+			}
+			return false, false
+		})
+		genEdge := condEdge(fn, func(cd Cond) (bool, bool) {
+			if cd.X == nil || cd.Y == nil || (cd.Op != token.EQL && cd.Op != token.NEQ) {
+				return false, false
+			}
+			for _, pr := range [][2]ssa.Value{{cd.X, cd.Y}, {cd.Y, cd.X}} {
+				nm, fl, _, _ := loadedField(pr[0])
+				if nm != V.Inode || fl != "Gen" {
+					continue
+				}
+				if mc, f2 := fieldOfCallResult(pr[1]); mc != nil && f2 == "Gen" && mc.Call.StaticCallee() != nil && mc.Call.StaticCallee().Name() == "MakeFh" {
+					return true, cd.Op == token.NEQ
+				}
+			}
+			return false, false
+		})
+		R.Check(everyPathTakes(fn, at, nilEdge, genEdge), id, key, P.Pos(pos), "NFS3ERR_STALE is chosen only behind an edge on which a handle failed to resolve", "every path passes GetInodeFh == nil, lockInodes(handle numbers) == nil or a generation mismatch", "'stale handle' is answered where no handle failed (e.g. an inode found by name vanished during a relock): the client is told its valid handle is dead, and a RENAME racing with a REMOVE of its target fails although it succeeds in every sequential order")
+	})
+	if n == 0 {
+		R.Fail(id, "nfs|STALE sites", "?", "the server answers NFS3ERR_STALE somewhere", "no use of the constant found")
+	}
 }
